@@ -257,11 +257,32 @@ impl Report {
         self.infra_errors.extend(o.infra_errors);
     }
 
-    /// Serialise for the shard -> parent hand-off.
+    /// Shard -> parent hand-off: JSON plus a binary side file with the fingerprints.
+    pub fn write_files(&self, path: &Path) -> std::io::Result<()> {
+        let mut bytes = Vec::with_capacity(self.nontrivial.len() * 8);
+        for x in &self.nontrivial {
+            bytes.extend_from_slice(&x.to_le_bytes());
+        }
+        std::fs::write(path.with_extension("fp"), bytes)?;
+        std::fs::write(path, serde_json::to_string(&self.to_json()).unwrap())
+    }
+    pub fn read_files(path: &Path) -> Option<Report> {
+        let v: Value = serde_json::from_str(&std::fs::read_to_string(path).ok()?).ok()?;
+        let mut r = Report::from_json(&v);
+        if let Ok(bytes) = std::fs::read(path.with_extension("fp")) {
+            r.nontrivial.reserve(bytes.len() / 8);
+            for c in bytes.chunks_exact(8) {
+                r.nontrivial.insert(u64::from_le_bytes(c.try_into().unwrap()));
+            }
+        }
+        let _ = std::fs::remove_file(path.with_extension("fp"));
+        Some(r)
+    }
+
     pub fn to_json(&self) -> Value {
         json!({
             "evaluations": self.evaluations,
-            "nontrivial": self.nontrivial.iter().map(|x| format!("{x:x}")).collect::<Vec<_>>(),
+            "nontrivial": Vec::<String>::new(),
             "classes": self.classes,
             "samples": self.samples,
             "known_hits": self.known_hits.iter().map(|(k,(n,w))| json!([k,n,w])).collect::<Vec<_>>(),
@@ -635,8 +656,8 @@ pub fn run_sharded_raw(ctx: &Ctx, n: usize, par: usize, env: &[(&str, String)]) 
                     let (i, _c, outp) = running.remove(k);
                     done += 1;
                     progressed = true;
-                    match std::fs::read_to_string(&outp).ok().and_then(|s| serde_json::from_str::<Value>(&s).ok()) {
-                        Some(v) => results.push((i, Report::from_json(&v))),
+                    match Report::read_files(&outp) {
+                        Some(r) => results.push((i, r)),
                         None => merged.infra_errors.push(format!("shard {i} produced no report (status {status})")),
                     }
                     let _ = std::fs::remove_file(&outp);
